@@ -77,11 +77,8 @@ def main():
     vio_lines = []
     for ob in violations[:25]:
         native = {"reproduced": False, "note": "no replay procedure"}
-        try:
-            if hasattr(mod, "replay"):
-                native = mod.replay(ob) or native
-        except Exception:
-            native = {"reproduced": False, "error": traceback.format_exc()[-1500:]}
+        if hasattr(mod, "replay"):
+            native = safe_replay(mod, ob) or native
         path = common.write_replay(pid, ob, native)
         tail = "" if native.get("reproduced") else " no-failing-input-found"
         vio_lines.append("VIOLATION property=%s replay=%s obligation=%s%s" % (pid, path, ob.id, tail))
@@ -112,6 +109,40 @@ def main():
             print("UNDECIDED obligation=%s backend=%s detail=%s" % (ob.id, ob.backend, ob.detail[:300]))
         sys.exit(2)
     sys.exit(0)
+
+
+def _replay_child(mod, ob, conn):
+    try:
+        r = mod.replay(ob)
+        conn.send(json.loads(json.dumps(r, default=str)))
+    except Exception:
+        conn.send({"reproduced": False, "error": traceback.format_exc()[-1500:]})
+    finally:
+        conn.close()
+
+
+def safe_replay(mod, ob, timeout=600):
+    """native replay in a forked child: a crash of native code (matid.ext) must not take the checker down"""
+    import multiprocessing as mp
+
+    ctx = mp.get_context("fork")
+    parent, child = ctx.Pipe(duplex=False)
+    p = ctx.Process(target=_replay_child, args=(mod, ob, child))
+    p.start()
+    child.close()
+    res = None
+    if parent.poll(timeout):
+        try:
+            res = parent.recv()
+        except EOFError:
+            res = None
+    p.join(5)
+    if p.is_alive():
+        p.kill()
+        return {"reproduced": False, "error": "replay timed out"}
+    if res is None:
+        return {"reproduced": True, "observed": "native replay crashed the interpreter (exit code %s) - e.g. segmentation fault in matid.ext" % p.exitcode}
+    return res
 
 
 def common_undecided():
